@@ -13,7 +13,8 @@ package main
 //
 // Input ($VERIF_IN), one case per line:
 //   fsm <id> <variant> <proto 0|1> <sink M|F> L <entry>* S <step>*
-//   entry = <idx>:<kind c|i|m>:<ts ns>:<exp ns|->:<hex of payload spec>
+//   entry = <idx>:<kind c|i|m>:<ts ns>:<exp ns|->:<rev>:<hex of payload spec>
+//           rev = robust.Message.Revision of a Config entry (applyRobustMessage skips it unless rev = revision in force + 1)
 //           kind c = command, i = raft-internal (LogNoop), m = command already tagged MessageOfDeath
 //           payload spec: "C" CreateSession | "D<sid> <quitmsg>" | "I<sid> <irc line>" | "G<duration>"
 //                         | "P<sid> PANIC" (like I; the generator predicts that the handler panics)
@@ -84,8 +85,12 @@ func vfEncode(m *robust.Message, useProto bool) []byte {
 
 func vfParseEntry(tok string, useProto bool) (*vfEntry, error) {
 	f := strings.Split(tok, ":")
-	if len(f) != 5 || len(f[1]) != 1 {
+	if len(f) != 6 || len(f[1]) != 1 {
 		return nil, fmt.Errorf("bad entry %q", tok)
+	}
+	rev, err := strconv.ParseUint(f[4], 10, 64)
+	if err != nil {
+		return nil, err
 	}
 	idx, err := strconv.ParseUint(f[0], 10, 64)
 	if err != nil {
@@ -95,7 +100,7 @@ func vfParseEntry(tok string, useProto bool) (*vfEntry, error) {
 	if err != nil {
 		return nil, err
 	}
-	specb, err := hex.DecodeString(strings.TrimPrefix(f[4], "-"))
+	specb, err := hex.DecodeString(strings.TrimPrefix(f[5], "-"))
 	if err != nil {
 		return nil, err
 	}
@@ -136,7 +141,7 @@ func vfParseEntry(tok string, useProto bool) (*vfEntry, error) {
 	case strings.HasPrefix(e.spec, "G"):
 		m.Type = robust.Config
 		m.Data = "SessionExpiration = \"" + rest + "\"\nPostMessageCooloff = \"0s\"\n"
-		m.Revision = idx
+		m.Revision = rev
 	case strings.HasPrefix(e.spec, "J"):
 		// generic form (histories of harness/py/irclib.py): every byte field hex-encoded
 		var j struct {
@@ -171,7 +176,7 @@ func vfParseEntry(tok string, useProto bool) (*vfEntry, error) {
 		case "F":
 			m.Type = robust.Config
 			m.Data = unhex(j.Toml)
-			m.Revision = j.Rev
+			m.Revision = rev // the entry's <rev> field is authoritative (j.Rev is informative)
 		default:
 			return nil, fmt.Errorf("bad J spec type %q", j.T)
 		}
@@ -693,8 +698,11 @@ func (w *vfWorld) dump() string {
 			w.lastSnapDump = ""
 		}
 	}
-	return fmt.Sprintf("st=%d:%d:%s out=%s keys=%s exp=%d srv=%s n=%d%s", first, last, vfList(stored), vfList(outs),
-		vfList(ks), int64(exp), vfServerDigest(ircServer), w.applied, extra)
+	ircServer.ConfigMu.RLock()
+	rev := ircServer.Config.Revision
+	ircServer.ConfigMu.RUnlock()
+	return fmt.Sprintf("st=%d:%d:%s out=%s keys=%s exp=%d rev=%d srv=%s n=%d%s", first, last, vfList(stored), vfList(outs),
+		vfList(ks), int64(exp), rev, vfServerDigest(ircServer), w.applied, extra)
 }
 
 // ---------------------------------------------------------------- model-independent replay
